@@ -337,6 +337,167 @@ func c01(p *core.Program, r *core.Report) {
 		}
 	}
 
+	// ---- rule 6b: a rejected setter leaves coordinates and ends in step
+	const r6b = "rejected-setter-consistent"
+	r.Rule(r6b, "in every method of package geom that stores the receiver's flatCoords and ends/endss and can return a non-nil error, the last store to each of those fields on every path to such a return is the nil constant or a result of the very deflate call whose error is returned (deflate0..3 hand back nil slices together with an error - checked): a failed SetCoords leaves the geometry empty. Coordinates dropped by deflate while the ends recorded for earlier members are kept (MultiPoint.SetCoords([{1,2},{3}])) leave ends that point past the coordinates: Coords() and Clone() panic", 4)
+	{
+		isDeflate := func(f *ssa.Function) bool {
+			return f != nil && strings.HasPrefix(f.Name(), "deflate") && core.FnPkgPath(f) == mod
+		}
+		// deflate contract: slice results are nil whenever the error is not
+		contract := true
+		for _, fn := range geomFns {
+			if !isDeflate(fn) {
+				continue
+			}
+			for _, b := range fn.Blocks {
+				ret, ok := b.Instrs[len(b.Instrs)-1].(*ssa.Return)
+				if !ok || len(ret.Results) < 2 || eng.IsNilConst(ret.Results[len(ret.Results)-1]) {
+					continue
+				}
+				for _, rv := range ret.Results[:len(ret.Results)-1] {
+					if _, isSlice := rv.Type().Underlying().(*types.Slice); isSlice && !eng.IsNilConst(rv) {
+						contract = false
+					}
+				}
+			}
+		}
+		r.Check(contract, r6b, "geom.deflate*/nil-with-error", "", true, "every deflate return that constructs an error hands back nil slices", "a deflate function returns a non-nil slice together with a freshly constructed error: callers that store the results keep half-built coordinates")
+		for _, fn := range geomFns {
+			if fn.Signature.Recv() == nil || len(fn.Params) == 0 || isDeflate(fn) {
+				continue
+			}
+			recv := fn.Params[0]
+			fieldOf := func(in ssa.Instruction) (string, *ssa.Store) {
+				st, ok := in.(*ssa.Store)
+				if !ok {
+					return "", nil
+				}
+				base, path := fieldRoot(st.Addr)
+				if base != ssa.Value(recv) || base == st.Addr {
+					return "", nil
+				}
+				for _, f := range []string{".flatCoords", ".ends", ".endss"} {
+					if strings.HasSuffix(path, f) {
+						return f, st
+					}
+				}
+				return "", nil
+			}
+			stored := map[string]bool{}
+			for _, b := range fn.Blocks {
+				for _, in := range b.Instrs {
+					if f, _ := fieldOf(in); f != "" {
+						stored[f] = true
+					}
+				}
+			}
+			if !stored[".flatCoords"] || !(stored[".ends"] || stored[".endss"]) {
+				continue
+			}
+			n := 0
+			for _, b := range fn.Blocks {
+				ret, ok := b.Instrs[len(b.Instrs)-1].(*ssa.Return)
+				if !ok || len(ret.Results) == 0 {
+					continue
+				}
+				ev := ret.Results[len(ret.Results)-1]
+				if !eng.IsErrorType(ev.Type()) || eng.IsNilConst(ev) {
+					continue
+				}
+				var errCall ssa.Value
+				if ex, isEx := ev.(*ssa.Extract); isEx {
+					errCall = ex.Tuple
+				}
+				n++
+				clean := func(st *ssa.Store) bool {
+					if eng.IsNilConst(st.Val) {
+						return true
+					}
+					if ex, isEx := st.Val.(*ssa.Extract); isEx && errCall != nil && ex.Tuple == errCall {
+						if c, isC := ex.Tuple.(*ssa.Call); isC && isDeflate(c.Call.StaticCallee()) {
+							return true
+						}
+					}
+					return false
+				}
+				bad := ""
+				for f := range stored {
+					// the stores to f that reach this return with no other store to f in between
+					seen := map[*ssa.BasicBlock]bool{}
+					var back func(blk *ssa.BasicBlock, from int)
+					back = func(blk *ssa.BasicBlock, from int) {
+						for i := from; i >= 0; i-- {
+							if ff, st := fieldOf(blk.Instrs[i]); ff == f {
+								if !clean(st) {
+									bad = fmt.Sprintf("the error return at %s can be reached with g%s last stored at %s (not nil, not a result of the failing deflate call)", p.Pos(ret.Pos()), f, p.Pos(st.Pos()))
+								}
+								return
+							}
+						}
+						for _, pr := range blk.Preds {
+							if !seen[pr] {
+								seen[pr] = true
+								back(pr, len(pr.Instrs)-1)
+							}
+						}
+					}
+					back(b, len(b.Instrs)-1)
+				}
+				r.Check(bad == "", r6b, fmt.Sprintf("%s/error-return#%d", short(fn), n), p.Pos(ret.Pos()), true, "coordinates and ends are nil or come from the failing call", bad+": the receiver is left with ends that do not match its coordinates")
+			}
+		}
+	}
+
+	// ---- rule 6c: reading back an empty geometry without a layout divides nothing by its stride
+	const r6c = "stride-division-guarded"
+	r.Rule(r6c, "in the inflate family (the functions Coords() unpacks the flat array with) every integer division or remainder whose divisor is the stride parameter lies on paths that all exclude an empty range (the false edge of offset == end, or of the dividend == 0) or a zero stride: a geometry constructed with NoLayout has stride 0, its only well-formed instances are empty, and `(end-offset)/stride` panics for them although there is nothing to unpack", 1)
+	{
+		n := 0
+		for _, fn := range geomFns {
+			if !strings.HasPrefix(fn.Name(), "inflate") || fn.Parent() != nil {
+				continue
+			}
+			var stride ssa.Value
+			for _, prm := range fn.Params {
+				if prm.Name() == "stride" {
+					stride = prm
+				}
+			}
+			if stride == nil {
+				continue
+			}
+			for _, b := range fn.Blocks {
+				for _, in := range b.Instrs {
+					bo, ok := in.(*ssa.BinOp)
+					if !ok || (bo.Op != token.QUO && bo.Op != token.REM) || eng.StripConv(bo.Y) != stride {
+						continue
+					}
+					n++
+					guarded := false
+					for _, e := range mustEdgesTo(fn, b) {
+						cc, ok := eng.EdgeCmp(fn.Blocks[e[0]], e[1])
+						if !ok || cc.Op != token.NEQ {
+							continue
+						}
+						// stride != 0, dividend != 0, or a != b for a dividend a - b
+						for _, pair := range [][2]ssa.Value{{cc.X, cc.Y}, {cc.Y, cc.X}} {
+							if k, isC := eng.ConstInt(pair[1]); isC && k == 0 && (eng.StripConv(pair[0]) == stride || eng.StripConv(pair[0]) == eng.StripConv(bo.X)) {
+								guarded = true
+							}
+						}
+						if sub, isSub := eng.StripConv(bo.X).(*ssa.BinOp); isSub && sub.Op == token.SUB {
+							if (cc.X == sub.X && cc.Y == sub.Y) || (cc.X == sub.Y && cc.Y == sub.X) {
+								guarded = true
+							}
+						}
+					}
+					r.Check(guarded, r6c, fmt.Sprintf("%s/div#%d", short(fn), n), p.Pos(bo.Pos()), true, "reached only with a non-empty range or a non-zero stride", "the division by the stride at "+p.Pos(bo.Pos())+" is reached for an empty range: with NoLayout (stride 0) reading back an empty geometry panics with an integer divide by zero")
+				}
+			}
+		}
+	}
+
 	multiPointEndsRule(p, r, "multipoint-ends")
 	strideRule(p, r, "stride-discipline", []strideTarget{{"", "inflate0", "all"}, {"", "inflate1", "all"}, {"", "inflate2", "all"}, {"", "inflate3", "all"}})
 
@@ -914,6 +1075,15 @@ func appendHelpersPass(p *core.Program, r *core.Report, rule string, rels []stri
 					case *ssa.Call:
 						if eng.BuiltinName(x) == "append" && len(x.Call.Args) > 0 {
 							return derived(x.Call.Args[0], depth+1)
+						}
+						// the standard library's append-style functions (strconv.AppendFloat, fmt.Appendf, binary.Append...)
+						// and the trimmers that hand back a sub-slice of their first argument
+						if callee := x.Call.StaticCallee(); callee != nil && !core.InModule(callee) && len(x.Call.Args) > 0 {
+							if strings.HasPrefix(callee.Name(), "Append") || (callee.Pkg != nil && callee.Pkg.Pkg.Path() == "bytes" && strings.HasPrefix(callee.Name(), "Trim")) {
+								if types.Identical(x.Call.Args[0].Type(), prm.Type()) {
+									return derived(x.Call.Args[0], depth+1)
+								}
+							}
 						}
 						// another append-style helper of the module handed the accumulator
 						if callee := x.Call.StaticCallee(); callee != nil && core.InModule(callee) && appendStyle[callee] {
